@@ -512,8 +512,47 @@ fn owned(c: RawChunk) -> RawOp {
 
 /// Reads the file back and demands header, chunk sequence and silence.
 fn verify_raw(file: &[u8], h: &NormHeader, ops: &[RawOp]) -> Result<(), String> {
+    verify_raw_on(Cursor::new(file.to_vec()), h, ops)?;
+    // the reader accepts any `Read + Seek`: the same bytes through a store that returns short reads
+    verify_raw_on(Dribble::new(file), h, ops).map_err(|e| format!("{} [backing store returning short reads]", e))
+}
+
+/// A `Read + Seek` store that hands out at most a few bytes per `read` call (allowed by `io::Read`).
+pub struct Dribble {
+    inner: Cursor<Vec<u8>>,
+    max: usize,
+    calls: usize,
+}
+
+impl Dribble {
+    pub fn new(file: &[u8]) -> Dribble {
+        Dribble { inner: Cursor::new(file.to_vec()), max: 1 + file.len() % 13, calls: 0 }
+    }
+}
+
+impl std::io::Read for Dribble {
+    fn read(&mut self, buf: &mut [u8]) -> std::io::Result<usize> {
+        self.calls += 1;
+        // vary the piece size deterministically: max, 1, max-1, ...
+        let lim = match self.calls % 3 {
+            0 => self.max,
+            1 => 1,
+            _ => self.max.saturating_sub(1).max(1),
+        };
+        let n = buf.len().min(lim);
+        std::io::Read::read(&mut self.inner, &mut buf[..n])
+    }
+}
+
+impl std::io::Seek for Dribble {
+    fn seek(&mut self, pos: std::io::SeekFrom) -> std::io::Result<u64> {
+        std::io::Seek::seek(&mut self.inner, pos)
+    }
+}
+
+fn verify_raw_on<T: std::io::Read + std::io::Seek>(store: T, h: &NormHeader, ops: &[RawOp]) -> Result<(), String> {
     let mut warn = Warnings::new();
-    let mut r = guard_s("Reader::new", || Reader::new(Cursor::new(file.to_vec()), &mut warn))?
+    let mut r = guard_s("Reader::new", || Reader::new(store, &mut warn))?
         .map_err(|e| format!("Reader::new failed on the written demo: {:?}", e))?;
     ensure!(warn.is_empty(), "warnings while reading the header: {:?}", warn.0);
     check_header!(r, h);
@@ -1355,8 +1394,13 @@ fn write_typed(c: &TypedCase, h: &NormHeader, cfg: &TypedCfg, flags: &mut TFlags
 }
 
 fn read_typed(file: &[u8], h: &NormHeader, expect: &[TExp]) -> Result<(), String> {
+    read_typed_on(Cursor::new(file.to_vec()), h, expect)?;
+    read_typed_on(Dribble::new(file), h, expect).map_err(|e| format!("{} [backing store returning short reads]", e))
+}
+
+fn read_typed_on<T: std::io::Read + std::io::Seek>(store: T, h: &NormHeader, expect: &[TExp]) -> Result<(), String> {
     let mut warn = Warnings::new();
-    let mut r: DemoReader<Protocol> = guard_s("DemoReader::new", || DemoReader::new(Cursor::new(file.to_vec()), &mut warn))?
+    let mut r: DemoReader<Protocol> = guard_s("DemoReader::new", || DemoReader::new(store, &mut warn))?
         .map_err(|e| format!("DemoReader::new failed on the written demo: {:?}", e))?;
     ensure!(warn.is_empty(), "warnings while reading the header: {:?}", warn.0);
     check_header!(r, h);
